@@ -1404,7 +1404,8 @@ template <class V, class T, int D> static void closest_case (vp::Ctx& c, const c
             if (s.coin ()) mx[i] = mn[i];
     if (bcls == 5)
     {
-        T h = (T) (1 + s.below (8)) * (s.coin () ? (T) 1 : (T) 0.25);
+        T h = (T) (1 + s.below (8));
+        if (s.coin ()) h *= (T) 0.25;
         for (int i = 0; i < D; ++i)
         {
             mn[i] = (T) s.range (-4, 4);
@@ -1683,7 +1684,9 @@ template <class S, class T> static void transform_case (vp::Ctx& c, const char* 
             m[j][3] = gen::nice<T> (s) / (T) 8;
             sum += qabs ((quad) m[j][3]) * cmax[j];
         }
-        m[3][3] = (T) ((double) sum * (2.0 + s.unit ()) + 0.5 + s.unit ());
+        double u1 = s.unit ();
+        double u2 = s.unit ();
+        m[3][3]   = (T) ((double) sum * (2.0 + u1) + 0.5 + u2);
     }
     else if (mcls == 6)
     {
